@@ -37,8 +37,18 @@ Scale(ty, v)   == (IF v.e < 0 THEN -v.e ELSE 0) + TolDigits(ty)
 VS(ty, v)      == S(v.neg, Shl(v.d, v.e + Scale(ty, v)))
 RS(ty, v, r)   == S(r.neg, Shl(r.d, Scale(ty, v)))
 AllIntegral(ty, v) == Bits(ty) > 16 /\ Cmp(VS(ty, v).d, Shl(TwoTo52, Scale(ty, v))) >= 0       \* |v| >= 2^52
+(* a value that is itself a double has no representation error: from 2^52 on (where the tolerance is all
+   that is left) an integer whose odd part is below 2^53 must convert exactly -- e.g. the literal
+   -9223372036854775808.0 is i64::MIN, never -222 *)
+TwoTo53 == <<9, 0, 0, 7, 1, 9, 9, 2, 5, 4, 7, 4, 0, 9, 9, 2>>
+IntegralDigits(v) ==                     \* digits of |v| when v is an integer, <<-1>> otherwise
+    IF v.e >= 0 THEN Shl(v.d, v.e)
+    ELSE IF -v.e >= Len(v.d) THEN <<-1>>
+    ELSE IF \A i \in (Len(v.d) + v.e + 1)..Len(v.d) : v.d[i] = 0 THEN SubSeq(v.d, 1, Len(v.d) + v.e) ELSE <<-1>>
+ExactDouble(v) == LET n == IntegralDigits(v) IN n # <<-1>> /\ Cmp(OddPart(n), TwoTo53) < 0
 Band(ty, v)    == Add(IF AllIntegral(ty, v) THEN <<>> ELSE Shl(<<5>>, Scale(ty, v) - 1),           \* 1/2
-                      MulSmall(Shl(v.d, v.e + Scale(ty, v) - TolDigits(ty)), TolMul(ty)))          \* + tolerance
+                      IF AllIntegral(ty, v) /\ ExactDouble(v) THEN <<>>
+                      ELSE MulSmall(Shl(v.d, v.e + Scale(ty, v) - TolDigits(ty)), TolMul(ty)))     \* + tolerance
 (* integer r is an admissible rounding of v *)
 Near(ty, v, r) == Cmp(SSub(RS(ty, v, r), VS(ty, v)).d, Band(ty, v)) <= 0
 (* some admissible rounding of v lies outside the type *)
